@@ -191,7 +191,7 @@ def parse_model_output(line):
 
 # ---- generators ------------------------------------------------------------------------------
 
-def random_problem(rng, max_n=5, nbest_max=1, mixed_heads=False, multi=False, beam=False):
+def random_problem(rng, max_n=5, nbest_max=1, mixed_heads=False, multi=False, beam=False, identity=False):
     p = Problem()
     p.n = rng.randint(1, max_n)
     p.T = rng.randint(1, 4)
@@ -224,6 +224,12 @@ def random_problem(rng, max_n=5, nbest_max=1, mixed_heads=False, multi=False, be
         if rng.random() < 0.3:
             k = rng.choice([1, 1, 2]) if multi else 1
             p.un[x] = [rng.randrange(x + 1, K) for _ in range(k)]
+    if identity and p.nbest == 1:
+        # identity unary rules (x -> x), listed before / between the others: harmless for the 1-best
+        # search (the copy is discarded as already closed) but they occupy a rule index
+        for x in list(p.un):
+            if rng.random() < 0.7:
+                p.un[x].insert(rng.randint(0, len(p.un[x]) - 1), x)
     if beam and rng.random() < 0.7:
         p.use_beta = True
         p.beta = rng.choice([0.5, 0.1, 0.01, 0.3])
@@ -264,6 +270,8 @@ def enumerate_derivations(p, tags_per_token, limit=200000):
     n = p.n
     chart = {}
     count = [0]
+    if any(x in v for x, v in p.un.items()):
+        raise OverflowError      # identity rules: infinitely many derivations
 
     def close_unary(items, allow):
         if not allow:
